@@ -186,6 +186,8 @@ def ref_negotiate(cls, items, offers):
     if r is not None or cls != "lang":
         return r, 1 if r is not None else 0
     # documented fallbacks of LanguageAccept: the client's primary tags against the offers ...
+    # (offers the client refused - most specific matching range has q=0 - stay refused)
+    offers = [o for o in offers if (sq := ref_quality(cls, items, o)) is None or sq[1] > 0]
     prim_items = [{"r": primary(it["r"]), "p": it["p"], "q": it["q"]} for it in items]
     r = ref_best("accept", prim_items, offers)
     if r is not None:
@@ -242,7 +244,7 @@ class NegotiationStream(Stream):
             S("lang", [("en", [], None)], ["en-US", "en-GB"]),
             S("lang", [("en", [], "0"), ("*", [], "0.1")], ["en", "de"]),
             S("lang", [("en-US", [], "0")], ["en"]),
-            # F17c: offers refused with q=0 come back through the fallback stages
+            # F17c (repaired by 0816efc): offers refused with q=0 came back through the fallback stages
             S("lang", [("en-US", [], "0"), ("*", [], None)], ["en_us"]),
             S("lang", [("en-US", [], "0"), ("en", [], "0.5")], ["en-US"]),
             S("lang", [("en", [], "0"), ("en-GB", [], None)], ["en"]),
@@ -446,15 +448,12 @@ class NegotiationStream(Stream):
         if "header" in case or case.get("grey") or any(q_status(it["q"]) == "grey" for it in case["items"]):
             return None
         what = self.strict(case, f, case["items"])
-        if what is not None and what.startswith("[q0-fallback] "):
-            return what
         if what is not None and any(it["q"] == "" for it in case["items"]):
             # known finding F17b: `;q=` (empty value) is dropped by parse_options_header as an
             # invalid parameter, so the item is kept with q=1 instead of being ignored. Classified
             # as F17b only when reading those items as "q absent" explains the whole behaviour.
             alt = [dict(it, q=None) if it["q"] == "" else it for it in case["items"]]
-            w2 = self.strict(case, f, alt)
-            if w2 is None or w2.startswith("[q0-fallback] "):
+            if self.strict(case, f, alt) is None:
                 return "[empty-q] " + what
         return what
 
@@ -492,18 +491,16 @@ class NegotiationStream(Stream):
             return f"best_match = {have!r}, the property's choice is {want!r}"
         # 5. "an offer whose best range has q=0 ... is never chosen" also binds the documented
         # fallbacks of LanguageAccept: they may pick an offer no range matches exactly, but not one
-        # the client refused (known finding F17c)
+        # the client refused (F17c, repaired by 0816efc)
         if have is not None:
             sq = ref_quality(cls, valid, have)
             if sq is not None and sq[1] <= 0:
-                return f"[q0-fallback] best_match chose {have!r} although its most specific matching range has q=0"
+                return f"best_match chose {have!r} although its most specific matching range has q=0"
         return None
 
     def finding_key(self, case, what):
         if what.startswith("[empty-q] "):
             return "F17b"
-        if what.startswith("[q0-fallback] ") and case["cls"] == "lang":
-            return "F17c"
         return None
 
     def nontrivial(self, case, real_out):
@@ -540,7 +537,6 @@ CHECK = Check(
         "urllib.request.parse_http_list, parse_options_header (without RFC 2231 key*= values), dump_options_header and the two regex splits are hand-modelled and validated by the stream",
         "sorted(a) == sorted(b) on parameter lists is modelled as multiset equality (List.isPerm)",
         "known finding F17b: an element whose q parameter is not a token (`;q=`, `;q= 0.5`, `;q =0.5`) keeps q=1 instead of being ignored; invalid_q_ignored is proved for token q texts (header level) and for q parameters that survive parse_options_header, the full-strength negation is proved",
-        "known finding F17c: the fallback stages of LanguageAccept.best_match can return an offer whose exact quality is 0; the q=0 clause is proved for the exact stage and for the other three classes, the full-strength negation is proved",
     ],
     trusted_extra=["CPython re / str / float / sorted semantics for the modelled primitives (validated by the stream, not verified)"],
     quick_budget=4000,
@@ -549,7 +545,7 @@ CHECK = Check(
 
 MANIFEST = {
     "level_text": "Machine-checked Lean 4 theorems about an executable model of parse_accept_header and the four Accept classes: the generic theorems (stable sort, first match = most specific, optimality and tie-breaking of best_match, none iff no positive offer) hold for every match relation and every total preorder of qualities and specificities and are instantiated for Accept, MIMEAccept, LanguageAccept (all three stages) and CharsetAccept; the model is tied to the code by a differential stream over the property's grammar and the property oracle (independent brute-force reference) runs on the real code.",
-    "level_note": "Trusted: Lean kernel; the correspondence harness; CPython re/str/float/sorted for modelled primitives; codecs.lookup is an opaque parameter; q literals are exact decimals in the model (float() assumed exact below 14 characters). Known findings F17b (unparsable q parameter keeps q=1) and F17c (language fallbacks re-admit q=0 offers).",
+    "level_note": "Trusted: Lean kernel; the correspondence harness; CPython re/str/float/sorted for modelled primitives; codecs.lookup is an opaque parameter; q literals are exact decimals in the model (float() assumed exact below 14 characters). Known finding F17b (unparsable q parameter keeps q=1).",
     "technique": "Lean 4 proof (induction over item / offer lists, generic in order and match relation) + model/code correspondence",
     "design_ref": "DESIGN.md section 4, C17",
 }
